@@ -247,7 +247,8 @@ def gen_plan(seed, tier):
             parent = d.below(n_worlds)
             nc_kind = d.weighted([('empty', 4), ('same_name', 2), ('new_name', 2), ('flag', 2), ('slices', 1), ('tides', 1),
                                   ('tides_nested', 1), ('earlier_name', 1), ('layer_geometry', 1), ('move_core', 2), ('layer_density', 2),
-                                  ('world_mass', 1), ('layer_flag', 1)])
+                                  ('world_mass', 1), ('layer_flag', 1), ('withdraw_mass', 1),
+                                  ('respecify_thickness', 1), ('grow_world', 1)])
             nn_kind = d.weighted([('none', 5), ('parent_name', 2), ('parent_config_name', 1), ('fresh', 2)])
             fresh += 1
             ops.append({'op': 'derive', 'parent': parent, 'new_config': nc_kind, 'new_name': nn_kind, 'tag': fresh,
@@ -442,6 +443,8 @@ class WorldChainEngine(EngineBase):
                 mass_given = shipped_mass_given(op['name'], new_world)
             elif op['op'] == 'derive':
                 mass_given = given.get(id(parent[0]), False) or (isinstance(nc, dict) and nc.get('mass') is not None)
+                if isinstance(nc, dict) and 'mass' in nc and nc['mass'] is None:
+                    mass_given = False                         # the derivation withdrew the prescription
             elif op['op'] == 'scale':
                 mass_given = given.get(id(parent[0]), False)
             given[id(new_world)] = bool(mass_given)
@@ -464,7 +467,8 @@ class WorldChainEngine(EngineBase):
                 if op['op'] == 'scale':
                     self._scaling(pw, new_world, op['factor'], i, label, viol, bump)
                 if op['op'] == 'derive' and op['new_config'] in ('empty', 'same_name', 'new_name', 'earlier_name', 'tides_nested', 'flag', 'tides') \
-                        or (op['op'] == 'derive' and op['new_config'] == 'layer_flag' and op['tag'] % 4 in (0, 1)):
+                        or (op['op'] == 'derive' and op['new_config'] == 'layer_flag' and op['tag'] % 4 in (0, 1)) \
+                        or (op['op'] == 'derive' and op['new_config'] == 'respecify_thickness'):
                     self._same_geometry(pw, new_world, i, label, viol)
             # ---- non-mutation of everything that existed before ----
             for (w, snap, m) in worlds:
@@ -548,6 +552,28 @@ class WorldChainEngine(EngineBase):
                 key = 'density' if lcfg.get('density') is not None else ('density_bulk' if lcfg.get('density_bulk') is not None else None)
                 if key is not None:
                     return {'layers': {lname: {key: [4500.0, 2000.0, 9000.0, 1200.0][op['tag'] % 4]}}}
+            return {}
+        if k == 'withdraw_mass':
+            # None is the only way a derivation can withdraw something its parent prescribes (a merge cannot delete a key);
+            # everywhere in the builder a None entry means the same as a missing one
+            if 'layers' in pw.config and pw.config['layers'] and hasattr(pw, 'layers') and \
+                    not any(lc.get('mass_frac') is not None for lc in pw.config['layers'].values()):
+                return {'mass': None}
+            return {}
+        if k == 'respecify_thickness':
+            # the same layer described by its thickness instead of its radius: geometry must come out unchanged
+            if 'layers' in pw.config and pw.config['layers'] and hasattr(pw, 'layers'):
+                names = list(pw.config['layers'].keys())
+                lname = names[op['value'] % len(names)]
+                layer = [L for L in pw if L.name == lname]
+                if layer:
+                    return {'layers': {lname: {'radius': None, 'thickness': float(layer[0].thickness)}}}
+            return {}
+        if k == 'grow_world':
+            # a larger world whose top layer is told to follow the world radius
+            if 'layers' in pw.config and len(pw.config['layers']) >= 2 and hasattr(pw, 'layers'):
+                top = list(pw.config['layers'].keys())[-1]
+                return {'radius': float(pw.radius) * [1.12, 1.5, 1.01, 2.0][op['value'] % 4], 'layers': {top: {'radius': None, 'thickness': None}}}
             return {}
         if k == 'layer_flag':
             # a non-geometric key of one layer
